@@ -201,6 +201,7 @@ theorem aStep_sound {op : MicroOp} {a a' : AState} {s : CState}
   | useMaybe v => exact aStepUnary_sound hG h
   | assumeNull v => exact aStepUnary_sound hG h
   | assumeOk v => exact aStepUnary_sound hG h
+  | clobber v => exact aStepUnary_sound hG h
 
 /-! ### lists of micro-ops -/
 
